@@ -52,6 +52,17 @@ Theorem C01_write_failed : forall (St : Type) (H : handler St) l a units d f b b
 Proof. exact @session_write_failed. Qed.
 Print Assumptions C01_write_failed.
 
+(* the write step of the model and the code's write_reply (shape regenerated in Gen/WritePath.v): ONE write per
+   reply, raced against the command loop - a decode level change leaves the same write pending (nothing is
+   re-sent), its completion delivers the reply exactly once *)
+Theorem C01_write_reply_shape : forall (St E : Type) (hf : ucfg St -> frame -> outcome E (list N) * ucfg St * list event) units d r lvl rest,
+  Rodbus.Gen.WritePath.write_reply_shape = Rodbus.Gen.WritePath.WriteOnceRacedAgainstCommands /\
+  run hf units d (MWriting r) (ECommand (ChangeDecoding lvl) :: rest) = run hf units lvl (MWriting r) rest /\
+  run hf units d (MWriting r) (EWriteDone :: rest) =
+    (let '(ws, u, lg, dd, e) := run hf units d MIdle rest in (r :: ws, u, lg, dd, e)).
+Proof. exact @write_step_once. Qed.
+Print Assumptions C01_write_reply_shape.
+
 (* ... and if the write completes first, the reply is delivered and the loop goes on *)
 Theorem C01_write_done : forall (St : Type) (H : handler St) l a units d f b bs units' lg levels rest,
   handle_frame H l a units f = (Ok (b :: bs), units', lg) ->
